@@ -194,6 +194,15 @@ def run_unit(unit, rng, ctx):
     n = np.array(data.shape)
     ctx.check(data.ndim == 3 and bool(np.all(n >= 1)), f'{what}: volume has shape {data.shape}', wit)
     ctx.check(int(data.sum()) == T * N and bool(np.all(data >= 0)), f'{what}: voxel sum {int(data.sum())} != frames x atoms {T * N}', wit)
+    if unit['i'] % 3 == 0 and data.size <= 2_000_000:
+        # another trajectory in the same cell at the same resolution (same grid shape) is binned while the first
+        # volume is still in use: the first volume keeps its own counts
+        first = data.copy()
+        T_b, N_b = int(rng.integers(1, 20)), int(rng.integers(1, 5))
+        vol_b = gen.make_trajectory(m, gen.species_objects(['Na'] * N_b), rng.uniform(0, 1, size=(T_b, N_b, 3))).to_volume(resolution=res)
+        ctx.check(int(np.asarray(vol_b.data).sum()) == T_b * N_b, f'{what}: second volume on the same grid: voxel sum {int(np.asarray(vol_b.data).sum())} != frames x atoms {T_b * N_b}', wit)
+        ctx.check(np.array_equal(np.asarray(vol.data), first), f'{what}: the first volume changed when a second trajectory was binned on the same grid (sum {int(np.asarray(vol.data).sum())}, was {int(first.sum())})', wit)
+        ctx.count('second_volumes_on_the_same_grid')
     size = lengths / n
     ctx.check(bool(np.all(size >= res * (1 - 1e-12)) and np.all(size < 2 * res * (1 + 1e-12))), f'{what}: voxel edges {size.tolist()} not in [resolution, 2 x resolution) (grid {n.tolist()}, lengths {lengths.tolist()})', wit)
     ctx.check(np.allclose(np.asarray(vol.voxel_size), size, rtol=1e-12), f'{what}: voxel_size {np.asarray(vol.voxel_size).tolist()} != lengths / grid {size.tolist()}', wit)
